@@ -95,6 +95,25 @@ DOCSTRINGS = {
         """,
 }
 
+DOCSTRINGS['dnumpy'] = """
+        Numpy style summary.
+
+        Parameters
+        ----------
+        a : integer
+        b : string
+
+        Returns
+        -------
+        integer
+        """
+DOCSTRINGS['dbare'] = """
+        Bare rest style.
+
+        :param integer a:
+        :return integer:
+        """
+
 SHARED = {}
 
 
@@ -139,6 +158,7 @@ CORE = [
     ('s1', 'none', None), ('s3', 'none', None), ('s1', 'errors', None), ('s0', 'shared', None), ('s5', 'shared', 'draises'),
     ('s1', 'tags', None), ('s1', 'examples', None), ('s3', 'prefix', None), ('s4', 'none', 'dparams'), ('s2', 'none', 'ddeprecated'),
     ('s5', 'misc', None), ('s0', 'schemas', None), ('s6', 'none', None), ('s4', 'none', 'draises'),
+    ('s1', 'none', 'dnumpy'), ('s5', 'none', 'dbare'),
 ]
 FULL = [(s, b, None) for s in ('s0', 's1', 's2', 's3', 's4', 's5', 's6') for b in ('none', 'errors', 'shared', 'tags', 'examples', 'prefix', 'misc', 'schemas')] + \
        [(s, 'none', d) for s in ('s1', 's4', 's5') for d in DOCSTRINGS] + [('s1', 'errors', 'draises'), ('s3', 'prefix', 'dparams')]
@@ -273,6 +293,13 @@ def gen_cases(ctx):
                         if k == 2 and stack == 'docstring':
                             continue
                         yield dict(set='core', atoms=idx, stack=stack, kind=kind, prefix='', variant=variant)
+    # ONE specification object (and its extractors) used for a sequence of different registries: A, B, A again
+    for stack in ('pydantic', 'docstring', 'docstring+pydantic'):
+        for kind in KINDS:
+            for idx in itertools.permutations(core if not ctx.quick else [0, 1, 2, 4, 7, 8, 14], 2):
+                yield dict(set='core', atoms=idx, stack=stack, kind=kind, prefix='', sequence=True)
+            for i in core:
+                yield dict(set='core', atoms=(i,), stack=stack, kind=kind, prefix='', late_error=True)
     # several endpoints in one document (OpenAPI): the first method on the root endpoint, the others under /sub
     for stack in ('pydantic', 'docstring+pydantic'):
         for kind in ('openapi-3.1', 'openapi-3.0'):
@@ -299,6 +326,8 @@ def run_case(case, rec):
     def viol(sig, expected, observed, **extra):
         rec.violation('C16:%s:%s' % (kind, sig), dict(case, atoms_desc=atoms, **extra), expected=expected, observed=observed)
 
+    if case.get('sequence') or case.get('late_error'):
+        return run_sequence(case, rec, atoms, kind, stack, path, viol)
     methods, users, names = build_methods(atoms)
     if prefix == 'multi':
         prefixes = [''] + ['/sub'] * (len(methods) - 1)
@@ -377,6 +406,58 @@ def run_case(case, rec):
     return h
 
 
+_LATE = [0]
+
+
+def run_sequence(case, rec, atoms, kind, stack, path, viol):
+    """one long-lived specification object generating for registry A, then B, then A again (and for a method documenting an
+    error class that was defined only after the first generation): every document must equal the one a fresh
+    specification object produces for the same registry"""
+    def dump(d):
+        return json.dumps(d, sort_keys=True, cls=specs_mod.JSONEncoder)
+
+    def fresh(ms):
+        return dump(make_spec(kind, stack).schema(path=path, methods_map={'': ms}))
+    spec = make_spec(kind, stack)
+    if spec is None:
+        return 'n/a'
+    try:
+        if case.get('sequence'):
+            methods, users, names = build_methods(atoms)
+            A, B = [methods[0]], [methods[1]]
+            seq = [('A', A), ('B', B), ('A', A), ('AB', A + B), ('B', B)]
+        else:
+            methods, users, names = build_methods(atoms)
+            first = dump(spec.schema(path=path, methods_map={'': methods}))
+            rec.transitions += 1
+            _LATE[0] += 1
+            code = 7400 + _LATE[0]
+            cls = type('LateError%d' % _LATE[0], (exceptions.JsonRpcError,), dict(code=code, message='late %d' % code))
+
+            def late(a: int) -> int:
+                pass
+            late.__doc__ = "Late method.\n\n:param integer a: the a.\n:raises %s: defined after the first generation\n" % cls.__name__
+            late.__name__ = 'late'
+            seq = [('late', [Method(late, 'late')]), ('first', methods)]
+        for label, ms in seq:
+            got = dump(spec.schema(path=path, methods_map={'': ms}))
+            want = fresh(ms)
+            rec.transitions += 2
+            if got != want:
+                viol('document of a re-used specification object differs from a fresh one (%s)' % (
+                    'after other registries were documented' if case.get('sequence') else 'error class defined after the first generation'),
+                    'same document as a fresh specification object', dict(step=label))
+                break
+    except Exception as e:   # noqa
+        viol('generation raised %s (%s extractor)' % (type(e).__name__, stack), 'a document', '%s: %s' % (type(e).__name__, str(e)[:200]))
+        return 'raised'
+    rec.states += 1
+    rec.traces += 1
+    rec.nontrivial_n += 1
+    rec.outcomes[kind] += 1
+    return 'seq'
+
+
 def second_stage(ctx):
     blobs = ctx.rec.blobs
     if not blobs:
@@ -443,7 +524,7 @@ def replay(doc):
     from mc.core import Ctx, Recorder, jdump
     rec = Recorder()
     c = doc['case']
-    case = {k: c[k] for k in ('set', 'atoms', 'stack', 'kind', 'prefix', 'variant') if k in c}
+    case = {k: c[k] for k in ('set', 'atoms', 'stack', 'kind', 'prefix', 'variant', 'sequence', 'late_error') if k in c}
     run_case(case, rec)
     ctx = Ctx('C16', 'quick', 0, 1)
     ctx.rec = rec
